@@ -1,4 +1,4 @@
-import vf, steps
+import vf, steps, seqs, e2obs
 
 def build(tier):
     quick = tier == "quick"
@@ -9,4 +9,20 @@ def build(tier):
     fixed = [k for k in kinds if k != "@other"]
     obs = steps.step_obligations("C02.a", fixed, tier, 2 if quick else 3, 2 if quick else 3, symargs=True)
     obs += steps.step_obligations("C02.a", ["@other"], tier, 0 if quick else 1, 0 if quick else 1, symargs=False)
+    def nleaves(st):
+        return sum(nleaves(x) if isinstance(x, list) else 1 for x in st)
+    for st in ([["s", ["s", "s"], "s"], [["s"], "s"], ["s", ["s", ["s"]], ["s"], "s"]] if quick else
+               [["s", ["s", "s"], "s"], [["s"], "s"], ["s", ["s", ["s"]], ["s"], "s"], [[], "s"], [["s", ["s", ["s", "s"]]]], ["s", "s", "s", ["s"]]]):
+        obs.append(vf.CH(f"C02.a generic invocation, argument structure {st}", "c02_generic.py", dict(STRUCT=st, L=2 if quick else 3, NCP=nleaves(st) * (2 if quick else 3)),
+                         timeout=300 if quick else 1200, encodes=["cminx.aggregator.DocumentationAggregator.process_generic_command", "enterDocumented_command",
+                                                                  "GenericCommandDocumentation.process", "Documenter.process_docs", "RSTWriter.to_text"],
+                         symbolic="the text of every argument", bound=f"argument structure {st} (lists = parenthesised groups)"))
+    # C02.d grammar layer: dangling doccomments / annotation comments produce no parser event other than bracket_doccomment / nothing
+    D = 2 if quick else 4
+    obs.append(e2obs.ob_validate(D, tier))
+    obs.append(e2obs.ob_parser("C02", D, label="C02.d"))
+    obs.append(e2obs.ob_munch("C02", D, only=lambda tn: tn.startswith(("line_comment", "bracket_comment", "space", "newline", "doccomment")), label="C02.d separators"))
+    # C02.e / C02.c whole sequences from the initial state: cross-command state, walker event order, rendering order and kinds
+    ks = ["function", "endfunction", "set", "cpp_class", "cpp_end_class", "cpp_member", "ct_add_test", "message", "cmake_parse_arguments", "macro", "endmacro", "cpp_attr", "option", "add_test"]
+    obs += seqs.seq_obligations("C02.e", ks[:8] if quick else ks, 3 if quick else 4, 1 if quick else 2, timeout=400 if quick else 2400)
     return dict(obligations=obs, explanation="x", assumptions=[])
